@@ -1,34 +1,18 @@
 (* C18 — where the full statement "the guard never returns Internal" is false of the faithful models: witnesses
    (decided by vm_compute) for every recorded finding the guard models can express, each with its executable trigger
-   firing.  The same inputs are in harness/witnesses_c18.py and are re-run against the real code on every check. *)
+   firing.  The same inputs are in harness/witnesses_c18.py and are re-run against the real code on every check.
+   After the repairs of the code one finding is left here: vtt-ruby-structure (the WebVTT cue-text cursor with <ruby>). *)
 From TT Require Import Base.Prelude Model.Outcome Model.ReaderGuards.
 
-(* ---- WebVTT line machine -------------------------------------------------------------------------------------- *)
-(* finding vtt-percentage-overflow:  "... --> 00:02.000 size:999...9%\nx\n" with 400 nines *)
-Definition w_vtt_overflow : text :=
-  [87;69;66;86;84;84;10;10;48;48;58;48;49;46;48;48;48;32;45;45;62;32;48;48;58;48;50;46;48;48;48;32;115;105;122;101;58]
-  ++ repeat 57 400 ++ [37;10;120;10].
-Theorem C18_vtt_total_refuted_overflow :
-  vtt_run [] w_vtt_overflow = Internal OverflowErr
-  /\ vtt_any_overflow (map vtt_classify (readlines w_vtt_overflow)) = true.
-Proof. repeat split; vm_compute; reflexivity. Qed.
-
-(* ---- the cursors ---------------------------------------------------------------------------------------------- *)
-(* finding srt-font-color-without-value: "<font color>x" *)
-Theorem C18_srt_cursor_refuted_font :
-  srt_cursor_run true [EvStart 0 (Some ColorNoValue); EvData] = Internal TypeErr
-  /\ srt_font_novalue [EvStart 0 (Some ColorNoValue); EvData] = true.
-Proof. split; reflexivity. Qed.
-
-(* findings vtt-stray-end-tag, vtt-ruby-structure *)
+(* ---- the WebVTT cue-text cursor ------------------------------------------------------------------------------- *)
+(* finding vtt-ruby-structure *)
 Theorem C18_vtt_cursor_refuted :
-  vtt_cursor_run true [TData 0; TEnd; TData 0] = Internal TypeErr                      (* a</b>c *)
-  /\ vtt_cursor_run true [TStartSpan; TStartRuby] = Internal TypeErr                   (* <b><ruby> *)
-  /\ vtt_cursor_run true [TStartRuby; TStartSpan] = Internal RuntimeErr                (* <ruby><b> *)
-  /\ vtt_cursor_run true [TStartRuby; TData 0; TStartRuby] = Internal RuntimeErr       (* nested ruby *)
-  /\ vtt_cursor_run true [TStartRuby; TData 0; TStartRt; TData 1] = Internal TypeErr   (* line break inside <rt> *)
-  /\ vtt_stray_end [TData 0; TEnd; TData 0] = true
-  /\ vtt_has_ruby [TStartSpan; TStartRuby] = true.
+  vtt_cursor_run true [TStartSpan 0; TStartRuby 1] = Internal TypeErr                            (* <b><ruby> *)
+  /\ vtt_cursor_run true [TStartRuby 0; TStartSpan 1] = Internal RuntimeErr                      (* <ruby><b> *)
+  /\ vtt_cursor_run true [TStartRuby 0; TData 0; TStartRuby 0] = Internal RuntimeErr             (* nested ruby *)
+  /\ vtt_cursor_run true [TStartRuby 0; TData 0; TStartRt 1; TData 1] = Internal TypeErr         (* line break inside <rt> *)
+  /\ vtt_cursor_run true [TStartRuby 0; TData 1] = Internal RuntimeErr                           (* line break inside <ruby> *)
+  /\ vtt_has_ruby [TStartSpan 0; TStartRuby 1] = true.
 Proof. repeat split; reflexivity. Qed.
 
 (* ---- SCC: the word-level function alone can fail internally ------------------------------------------------------ *)
@@ -37,7 +21,13 @@ Proof. repeat split; reflexivity. Qed.
 Theorem C18_scc_word_refuted : scc_word_from_str [97; 98; 12; 12] = Internal IndexErr.
 Proof. vm_compute. reflexivity. Qed.
 
-(* ---- EBU STL ---------------------------------------------------------------------------------------------------- *)
+(* ---- SRT: the variant without `subtitle_text = ""` (the code before repository commit 76afcc4) -------------------- *)
+Theorem C18_srt_unbound_variant_refuted :
+  srt_run_unbound [] [49;10;48;48;58;48;48;58;48;49;44;48;48;48;32;45;45;62;32;48;48;58;48;48;58;48;50;44;48;48;48;10;10]
+  = Internal UnboundLocalErr.
+Proof. vm_compute. reflexivity. Qed.
+
+(* ---- repaired in the repository: the former witnesses now pass ------------------------------------------------------ *)
 Fixpoint patch (off : nat) (v : list Z) (l : list Z) : list Z :=
   match off with
   | O => v ++ skipn (length v) l
@@ -47,33 +37,41 @@ Definition gsi_blank : list Z := patch 3 [83;84;76;50;53;46;48;49] (repeat 32 10
 Definition tti (cs : Z) (sec : Z) : list Z :=                                             (* SGN 0, SN 1, EBN 0xFF, TCI 00:00:sec:00, TCO +1 s *)
   [0; 1; 0; 255; cs; 0; 0; sec; 0; 0; 0; sec + 1; 0; 20; 2; 0] ++ repeat 143 112.
 Definition cfg0 := {| cfg_start := StartNone; cfg_rows := RowsNone |}.
+Definition vtt_cue : text := [87;69;66;86;84;84;10;10;48;48;58;48;49;46;48;48;48;32;45;45;62;32;48;48;58;48;50;46;48;48;48].
 
-(* finding stl-zero-row-count: MNR = "00" *)
-Theorem C18_stl_refuted_zero_rows :
-  let cfg := {| cfg_start := StartNone; cfg_rows := RowsMNR |} in
-  let file := patch 253 [48; 48] gsi_blank ++ tti 0 5 in
-  stl_run cfg [] file = Internal ZeroDivisionErr /\ trig_zero_rows cfg (firstn 1024 file) = true.
-Proof. split; vm_compute; reflexivity. Qed.
-
-(* ---- SRT: the variant without `subtitle_text = ""` (the code before repository commit 76afcc4) -------------------- *)
-Theorem C18_srt_unbound_variant_refuted :
-  srt_run_unbound [] [49;10;48;48;58;48;48;58;48;49;44;48;48;48;32;45;45;62;32;48;48;58;48;48;58;48;50;44;48;48;48;10;10]
-  = Internal UnboundLocalErr.
-Proof. vm_compute. reflexivity. Qed.
-
-(* ---- repaired in the repository (commits 7ed55ac, 05a353c, 9e84fe8, 41b1329; 818e997, 15db449, c08d0ef, 8f4f9e5): the
-   former witnesses now pass ------------------------------------------------------------------------------------------ *)
+(* commits 7ed55ac, 05a353c, 9e84fe8, 41b1329 *)
 Theorem C18_repaired_witnesses_pass :
   vtt_run [] [] = OkDoc                                                                                   (* empty file *)
-  /\ vtt_run [] [87;69;66;86;84;84;10;10;48;48;58;48;49;46;48;48;48;32;45;45;62;32;48;48;58;48;50;46;48;48;48;10] = OkDoc   (* cue without payload *)
+  /\ vtt_run [] (vtt_cue ++ [10]) = OkDoc                                                                 (* cue without payload *)
   /\ stl_run {| cfg_start := StartTCP; cfg_rows := RowsNone |} [] (gsi_blank ++ tti 0 5) = OkDoc          (* blank TCP *)
-  /\ stl_run {| cfg_start := StartNone; cfg_rows := RowsMNR |} [] (gsi_blank ++ tti 0 30) = OkDoc         (* blank MNR, subtitle at 30 s *)
-  /\ srt_cursor_run true [EvData; EvEnd 0; EvData] = OkDoc                                                (* a</b>c *)
+  /\ stl_run {| cfg_start := StartNone; cfg_rows := RowsMNR |} [] (gsi_blank ++ tti 0 30) = OkDoc.        (* blank MNR, subtitle at 30 s *)
+Proof. repeat split; vm_compute; reflexivity. Qed.
+
+(* commits 818e997 (srt-stray-end-tag), 15db449 (vtt-rt-outside-ruby), 8eaaab8, c08d0ef (stl-zero-block-count), 8f4f9e5
+   (stl-cumulative-block-first) *)
+Theorem C18_repaired_witnesses_pass_2 :
+  srt_cursor_run true [EvData; EvEnd 0; EvData] = OkDoc                                                   (* a</b>c *)
   /\ srt_cursor_run false [EvEnd 0; EvData] = OkDoc                                                       (* </b>c, paragraph not attached *)
+  /\ srt_cursor_run true [EvEnd 0; EvEnd 0; EvEnd 0; EvEnd 0] = OkDoc
   /\ srt_cursor_run true [EvStart 0 None; EvStart 1 None; EvEnd 0; EvData; EvEnd 1; EvEnd 0; EvEnd 0] = OkDoc   (* <b><i></b>x</i></b></b> *)
-  /\ vtt_cursor_run true [TStartRt; TData 0] = OkDoc                                                      (* <rt>x *)
-  /\ vtt_cursor_run true [TTimestamp; TData 0; TEnd; TData 0] = Internal TypeErr                          (* a timestamp tag opens nothing: the end tag is stray *)
+  /\ vtt_cursor_run true [TStartRt 0; TData 0] = OkDoc                                                    (* <rt>x *)
+  /\ vtt_cursor_run true [TTimestamp; TData 0; TStartSpan 0; TTimestamp; TEnd 0; TData 0] = OkDoc         (* a timestamp tag opens nothing *)
   /\ stl_run cfg0 [] (patch 238 [48;48;48;48;48] gsi_blank ++ tti 0 5) = OkDoc                            (* TNB = "00000" *)
   /\ stl_run cfg0 [] (gsi_blank ++ tti 2 5) = OkDoc                                                       (* first subtitle block has CS = 2 *)
   /\ stl_run cfg0 [] (gsi_blank ++ tti 1 5 ++ tti 2 6) = OkDoc.
+Proof. repeat split; vm_compute; reflexivity. Qed.
+
+(* lab commits 654d3f5 (vtt-stray-end-tag), cb365b8 (vtt-percentage-overflow), 02aa1c0 (srt-font-color-without-value), 7e042d3
+   (stl-zero-row-count) *)
+Theorem C18_repaired_witnesses_pass_3 :
+  vtt_cursor_run true [TData 0; TEnd 0; TData 0] = OkDoc                                                  (* a</b>c *)
+  /\ vtt_cursor_run false [TEnd 0; TEnd 1; TEnd 0; TData 2] = OkDoc
+  /\ vtt_cursor_run true [TStartSpan 0; TData 0; TEnd 1; TData 0; TEnd 0; TData 0] = OkDoc                (* <b>x</i>y</b>z *)
+  /\ vtt_cursor_run true [TStartRuby 0; TData 0; TStartRt 1; TData 0; TEnd 0; TData 0; TStartRuby 0; TData 0; TStartRt 1; TData 0; TEnd 1; TEnd 0] = OkDoc
+                                                                                                          (* <ruby>a<rt>b</ruby>c<ruby>d<rt>e</rt></ruby> *)
+  /\ vtt_run [] (vtt_cue ++ [32;115;105;122;101;58] ++ repeat 57 400 ++ [37;10;120;10]) = OkDoc          (* size:999...9% with 400 nines *)
+  /\ srt_cursor_run true [EvStart 0 (Some ColorNoValue); EvData] = OkDoc                                  (* <font color>x *)
+  /\ stl_run {| cfg_start := StartNone; cfg_rows := RowsMNR |} [] (patch 253 [48; 48] gsi_blank ++ tti 0 5) = OkDoc     (* MNR = "00" *)
+  /\ stl_run {| cfg_start := StartNone; cfg_rows := RowsInt 0 |} [] (gsi_blank ++ tti 0 5) = OkDoc
+  /\ stl_run {| cfg_start := StartNone; cfg_rows := RowsInt (-3) |} [] (gsi_blank ++ tti 0 5) = OkDoc.
 Proof. repeat split; vm_compute; reflexivity. Qed.
